@@ -876,7 +876,7 @@ fn timer_seq(t: &MTimer) -> u8 {
 /// rejected inputs of every class, relative to the current state
 pub fn gen_rejected(g: &mut G, s: &MState) -> Input {
     loop {
-        match g.below(10) {
+        match g.below(11) {
             0 => return Input::Data(vec![7u8; s.cfg.max_packet_size as usize + 1 + g.below(5) as usize]),
             1 => {
                 // undecodable header
@@ -951,7 +951,47 @@ pub fn gen_rejected(g: &mut G, s: &MState) -> Input {
                 c.probe_period += MS;
                 return Input::SetConfig(c);
             }
-            _ => return Input::AddBroadcast(vec![]),
+            9 => return Input::AddBroadcast(vec![]),
+            _ => {
+                // undecodable member list: a well-formed header addressed to us from somebody else, a count,
+                // some members that decode (carrying news about unknown identities) and then one that does not
+                let src = s.members.iter().find(|m| m.state != 2).map(|m| (m.id, m.inc)).unwrap_or((VId::new(4, 0, 0, 0), 0));
+                if src.0.a == s.identity.a {
+                    continue;
+                }
+                let msg = g.pick(&[foca::Message::Gossip, foca::Message::Ping(3), foca::Message::Feed, foca::Message::Ack(1)]).clone();
+                let mut b = header_bytes(&foca::Header { src: src.0, src_incarnation: src.1, dst: s.identity, message: msg });
+                let good = 1 + g.below(3) as u16;
+                b.extend((good + 1).to_be_bytes());
+                for j in 0..good {
+                    let id = VId::new(20 + g.below(30) as u16 + j, g.below(3) as u16, 0, 0);
+                    b.extend(member_bytes(&foca::Member::new(id, g.below(4) as u16, if g.chance(30) { foca::State::Suspect } else { foca::State::Alive })));
+                }
+                // a member whose state byte is invalid (or that is cut short)
+                let mut bad = member_bytes(&foca::Member::new(VId::new(60, 0, 0, 0), 0, foca::State::Alive));
+                if g.chance(50) {
+                    let n = bad.len();
+                    bad[n - 1] = 9;
+                } else {
+                    bad.truncate(bad.len() - 1);
+                }
+                b.extend(bad);
+                let mut cur = &b[..];
+                let ok_hdr = dec_header(&mut cur).is_ok();
+                let mut fails = false;
+                if ok_hdr && cur.len() >= 2 {
+                    cur = &cur[2..];
+                    for _ in 0..=good {
+                        if dec_member(&mut cur).is_err() {
+                            fails = true;
+                            break;
+                        }
+                    }
+                }
+                if fails && b.len() <= s.cfg.max_packet_size as usize {
+                    return Input::Data(b);
+                }
+            }
         }
     }
 }
@@ -959,7 +999,7 @@ pub fn gen_rejected(g: &mut G, s: &MState) -> Input {
 /// C17: twin runs with and without rejected inputs
 pub fn c17(seed: u64, budget: u64) -> FOut {
     let mut out = FOut::default();
-    out.rule = "twin runs on the real crate: a seeded base history (200 calls) is replayed on a second identical instance with rejected inputs of every class (oversize, undecodable header, own identity/address source, wrong destination, one trailing byte, stale-epoch timers, NotUndead, SameIdentity, InvalidConfig, empty add_broadcast) inserted at random points; every effect list and result of the base inputs and the final full state (incl. RNG position) must be identical, and each inserted input must itself produce no effect; also the same history twice gives identical streams. distinct = twin runs with at least 5 insertions of at least 3 classes".into();
+    out.rule = "twin runs on the real crate: a seeded base history (200 calls) is replayed on a second identical instance with rejected inputs of every class (oversize, undecodable header, member list that stops decoding after some good members, own identity/address source, wrong destination, one trailing byte, stale-epoch timers, NotUndead, SameIdentity, InvalidConfig, empty add_broadcast) inserted at random points; every effect list and result of the base inputs and the final full state (incl. RNG position) must be identical, and each inserted input must itself produce no effect; also the same history twice gives identical streams. distinct = twin runs with at least 5 insertions of at least 3 classes".into();
     for h in 0..budget {
         let hs = seed.wrapping_mul(92821).wrapping_add(h);
         // run A, recording inputs
